@@ -435,10 +435,10 @@ func executeErrMap(c Case) runResult {
 	hang := ""
 	select {
 	case <-finished:
-	case <-time.After(20 * time.Second):
+	case <-time.After(8 * time.Second):
 		select {
 		case <-finished:
-		case <-time.After(10 * time.Second):
+		case <-time.After(4 * time.Second):
 			hang = describeHang(c, func(g, i int) (int32, bool) { return states[g][i].st.Load(), states[g][i].ran.Load() })
 		}
 	}
@@ -462,7 +462,7 @@ func executeErrMap(c Case) runResult {
 	return res
 }
 
-// describeHang classifies a set of GetOrSet calls that did not finish in 30 s.
+// describeHang classifies a set of GetOrSet calls that did not finish in 12 s.
 func describeHang(c Case, st func(g, i int) (int32, bool)) string {
 	type ks struct{ blocked, running, ranReturned, notStarted int }
 	per := map[int]*ks{}
@@ -496,7 +496,7 @@ func describeHang(c Case, st func(g, i int) (int32, bool)) string {
 	for _, key := range keys {
 		k := per[key]
 		if k.blocked > 0 && k.running == 0 && k.ranReturned > 0 {
-			return fmt.Sprintf("%d GetOrSet(k%d) call(s) still blocked 30 s after the call that computed the value returned", k.blocked, key)
+			return fmt.Sprintf("%d GetOrSet(k%d) call(s) still blocked 12 s after the call that computed the value returned", k.blocked, key)
 		}
 	}
 	for _, key := range keys {
@@ -510,11 +510,11 @@ func describeHang(c Case, st func(g, i int) (int32, bool)) string {
 				}
 			}
 			if all {
-				return fmt.Sprintf("%d GetOrSet(k%d) call(s) blocked for 30 s although no call is computing the value", k.blocked, key)
+				return fmt.Sprintf("%d GetOrSet(k%d) call(s) blocked for 12 s although no call is computing the value", k.blocked, key)
 			}
 		}
 	}
-	return "inconclusive: program did not finish in 30 s but no call is provably stuck (slow machine?)"
+	return "inconclusive: program did not finish in 12 s but no call is provably stuck (slow machine?)"
 }
 
 // ---- sequential model ---------------------------------------------------------------------------
